@@ -952,14 +952,23 @@ func (e *Exec) next(fr *Frame, x *ssa.Next) Value {
 			return Tuple{smt.False, smt.BVC(64, 0), smt.BVC(32, 0)}
 		}
 		b := it.S.B[it.Pos]
-		if smt.UMax(b) >= 0x80 {
-			if e.feasibleStrict(smt.BvCmp(smt.OBvUle, smt.BVC(8, 0x80), b)) {
-				e.unsupported("range over string with non-ASCII byte")
+		if b.Sort.K != smt.KBV {
+			// Int-mode bytes: only ASCII strings are modelled
+			if e.feasibleStrict(smt.IntCmp(smt.OIntLe, smt.IntC(0x80), b)) {
+				e.unsupported("range over an Int-mode string with a non-ASCII byte")
 			}
+			r := Tuple{smt.True, smt.BVC(64, uint64(it.Pos)), b}
+			it.Pos++
+			return r
 		}
-		r := Tuple{smt.True, smt.BVC(64, uint64(it.Pos)), smt.ZExt(b, 32)}
-		it.Pos++
-		return r
+		pos := it.Pos
+		if smt.UMax(b) < 0x80 || e.forkBool(smt.BvCmp(smt.OBvUlt, b, smt.BVC(8, 0x80))) {
+			it.Pos++
+			return Tuple{smt.True, smt.BVC(64, uint64(pos)), smt.ZExt(b, 32)}
+		}
+		r, w := e.decodeRune(it.S.B[pos:])
+		it.Pos += w
+		return Tuple{smt.True, smt.BVC(64, uint64(pos)), r}
 	}
 	mt := x.Iter.(*ssa.Range).X.Type().Underlying().(*types.Map)
 	if it.M != nil {
@@ -976,6 +985,60 @@ func (e *Exec) next(fr *Frame, x *ssa.Next) Value {
 		}
 	}
 	return Tuple{smt.False, zeroValue(mt.Key()), zeroValue(mt.Elem())}
+}
+
+// decodeRune: UTF-8 decoding of the first character of bs (first byte known to be >= 0x80),
+// exactly as the Go specification prescribes for range-over-string: a valid 2..4 byte sequence
+// (shortest form, no surrogates, <= U+10FFFF) yields its code point and width, anything else
+// yields U+FFFD and width 1. Forks on the sequence class and on its validity.
+func (e *Exec) decodeRune(bs []*smt.Term) (*smt.Term, int) {
+	c8 := func(v uint64) *smt.Term { return smt.BVC(8, v) }
+	in := func(x *smt.Term, lo, hi uint64) *smt.Term {
+		return smt.And(smt.BvCmp(smt.OBvUle, c8(lo), x), smt.BvCmp(smt.OBvUle, x, c8(hi)))
+	}
+	bad := smt.BVC(32, 0xFFFD)
+	b0 := bs[0]
+	// class 0: invalid lead byte; 1: two bytes; 2: three bytes; 3: four bytes
+	conds := []*smt.Term{
+		smt.Or(in(b0, 0x80, 0xC1), in(b0, 0xF5, 0xFF)),
+		in(b0, 0xC2, 0xDF),
+		in(b0, 0xE0, 0xEF),
+		in(b0, 0xF0, 0xF4),
+	}
+	if e.guarded() {
+		e.unsupported("range over a string with a non-ASCII byte under a merge guard")
+	}
+	cls := e.choose(len(conds), func(i int) bool { return e.feasible(conds[i]) })
+	e.pc = append(e.pc, conds[cls])
+	if cls == 0 || len(bs) < cls+1 {
+		return bad, 1
+	}
+	cont := func(x *smt.Term) *smt.Term { return in(x, 0x80, 0xBF) }
+	low6 := func(x *smt.Term) *smt.Term { return smt.ZExt(smt.Extract(x, 5, 0), 32) }
+	shl := func(x *smt.Term, n uint64) *smt.Term { return smt.BvBin(smt.OBvShl, x, smt.BVC(32, n)) }
+	or := func(x, y *smt.Term) *smt.Term { return smt.BvBin(smt.OBvOr, x, y) }
+	var valid, r *smt.Term
+	switch cls {
+	case 1:
+		valid = cont(bs[1])
+		r = or(shl(smt.ZExt(smt.Extract(b0, 4, 0), 32), 6), low6(bs[1]))
+	case 2:
+		// E0: second byte A0..BF; ED: second byte 80..9F (no surrogates)
+		second := smt.Ite(smt.Eq(b0, c8(0xE0)), in(bs[1], 0xA0, 0xBF),
+			smt.Ite(smt.Eq(b0, c8(0xED)), in(bs[1], 0x80, 0x9F), cont(bs[1])))
+		valid = smt.And(second, cont(bs[2]))
+		r = or(or(shl(smt.ZExt(smt.Extract(b0, 3, 0), 32), 12), shl(low6(bs[1]), 6)), low6(bs[2]))
+	case 3:
+		// F0: second byte 90..BF; F4: second byte 80..8F
+		second := smt.Ite(smt.Eq(b0, c8(0xF0)), in(bs[1], 0x90, 0xBF),
+			smt.Ite(smt.Eq(b0, c8(0xF4)), in(bs[1], 0x80, 0x8F), cont(bs[1])))
+		valid = smt.And(second, smt.And(cont(bs[2]), cont(bs[3])))
+		r = or(or(or(shl(smt.ZExt(smt.Extract(b0, 2, 0), 32), 18), shl(low6(bs[1]), 12)), shl(low6(bs[2]), 6)), low6(bs[3]))
+	}
+	if e.forkBool(valid) {
+		return r, cls + 1
+	}
+	return bad, 1
 }
 
 func sameKey(a, b Value) bool {
